@@ -17,7 +17,7 @@ reach any output).
 import ast
 import re
 
-from mmsa import au, cfg as cfgmod, classfx, dataflow, effects
+from mmsa import au, cfg as cfgmod, classfx, dataflow, effects, pathcond
 from mmsa.core import Undecided, norm, walk_no_nested
 
 MM = 'tbrmatchedmarkets.TBRMatchedMarkets'
@@ -81,6 +81,54 @@ def function_effects(f):
   return g, rd, out
 
 
+def _root_name(e):
+  while isinstance(e, (ast.Attribute, ast.Subscript, ast.Call)):
+    e = e.func if isinstance(e, ast.Call) else e.value
+  return e.id if isinstance(e, ast.Name) else None
+
+
+def _param_alias_defs(rd, node, name, seen=None):
+  """Definitions reaching `node` through which `name` may denote the parameter object itself (p = self.parameters, or
+  a chain of plain local aliases of it)."""
+  seen = seen if seen is not None else set()
+  out = []
+  for d in rd.defs_at(node, name):
+    if id(d) in seen or d.how != 'assign' or d.value is None:
+      continue
+    seen.add(id(d))
+    text = norm(rd.expand(d.node, d.value, aliases=True)[0])
+    if PARAM_PAT.match(text) and '(' not in text:
+      out.append((d, text))
+    elif isinstance(d.value, ast.Name):
+      out += [(d, t) for _, t in _param_alias_defs(rd, d.node, d.value.id, seen)]
+  return out
+
+
+def _conditional_alias(rep, f, g, rd, e):
+  """`p = self.parameters; if c: p = copy.copy(p); p.field = v`: the store writes the caller's object on the paths that
+  skip the copy.  Reported when such a path is feasible under the path conditions."""
+  recv = e.target.value if e.kind in ('attr-store', 'item-store', 'delete') and isinstance(e.target, (ast.Attribute, ast.Subscript)) else e.target
+  name = _root_name(recv)
+  if name is None or len(rd.defs_at(e.node, name)) < 2:
+    return
+  cands = _param_alias_defs(rd, e.node, name)
+  if not cands:
+    return
+  cand_nodes = {d.node.id: t for d, t in cands}
+  try:
+    for path in g.enumerate_paths(g.entry, lambda x: x is e.node, cfgmod.no_exc, max_paths=3000, back_limit=0):
+      pf = pathcond.PathFacts(path, rd)
+      last = pf.env.get(name)
+      if last is None or last[0].node.id not in cand_nodes or not pf.feasible:
+        continue
+      rep.violation('R1/parameters-read-only', f.qualname, norm(e.stmt)[:140],
+                    '%s: %s writes through %s, which is %s (the caller\'s parameter object) on the path where %s: a search or query changes the user\'s TBRMMDesignParameters'
+                    % (f.name, norm(e.stmt)[:80], name, cand_nodes[last[0].node.id], pf.text()[:160] or 'no copy is taken'), f.loc(e.stmt))
+      return
+  except Undecided as ex:
+    rep.undecided('R1/parameters-read-only', '%s: %s' % (f.name, norm(e.stmt)[:60]), 'receiver %s may alias the parameter object; %s' % (name, ex), f.loc(e.stmt))
+
+
 def r1_parameters(repo, rep):
   n = 0
   classes = [MM, 'tbrmmdiagnostics.TBRMMDiagnostics', 'tbrmmscore.TBRMMScore', 'tbrmmdesign.TBRMMDesign', 'tbrmmdata.TBRMMData', 'heapdict.HeapDict']
@@ -101,6 +149,8 @@ def r1_parameters(repo, rep):
         rep.check(not hit, 'R1/parameters-read-only', '%s: %s does not write the parameter object' % (f.name, norm(e.stmt)[:50]), f.qualname,
                   norm(e.stmt)[:140], '%s writes into the caller\'s parameter object (%s): a search or query changes the user\'s TBRMMDesignParameters'
                   % (f.name, norm(e.stmt)[:100]), f.loc(e.stmt), nontrivial=bool(hit))
+        if not hit and cls_ == 'local' and e.kind in ('attr-store', 'item-store', 'delete', 'mutator-call'):
+          _conditional_alias(rep, f, g, rd, e)
   rep.floor('write sites scanned for parameter stores', n, 40)
   # interprocedural part: methods of the parameter class that write their own fields (directly or through another
   # method of the class) must not be invoked on a parameter object outside its construction
